@@ -272,6 +272,35 @@ def exercise(ctx, hb, drv, quick, profile):
                                   "oracle": "Horner with refmath u128 arithmetic at offset*g^i (extension fields: Horner with the crate's element ops); never an FFT"}
 
 
+def split_radix(ctx, drv, quick):
+    """The concurrent code path: the harness built with --features concurrent (fft::evaluate_poly etc. dispatch to
+    math/src/fft/concurrent.rs split_radix_fft for n >= 1024, Segment::new to its duplicate) under several rayon pool
+    sizes vs the extracted model of split_radix_fft (Model/FFTSplit.v) resp. the serial model."""
+    conc = ctx.build_harness("c09", "release", features=("concurrent",))
+    if not conc or not drv:
+        return
+    maxlog = 12 if quick else 13
+    outs, t0 = {}, __import__("time").time()
+    for T in (1, 2, 3, 8):
+        rc, out, dt = vcheck.sh([conc, "split", str(ctx.seed), str(maxlog)], timeout=600, env={"RAYON_NUM_THREADS": str(T)})
+        head = [l for l in out.split("\n") if l.startswith("# build")]
+        ctx.ob(f"split:run:threads={T}", rc == 0 and bool(head) and "concurrent=true" in head[0] and f"threads={T}" in head[0],
+               f"rc={rc} {head[:1]} {out[-200:] if rc else ''}")
+        outs[T] = [l for l in out.split("\n") if " => " in l]
+    ref = outs[1]
+    for T in (2, 3, 8):
+        bad = [a.split(" => ")[0][:120] for a, b in zip(ref, outs[T]) if a != b]
+        ctx.ob(f"split:threads={T}:same-output-as-1-thread", len(ref) == len(outs[T]) and not bad, f"{len(bad)} differing lines, first: {bad[:1]}")
+    sizes = sorted({veclen(l.split(" => ")[0].split(" ")[2]).bit_length() - 1 for l in ref if l.startswith("split_")})
+    ctx.ob("coverage:split:sizes-2^10..", set(range(10, maxlog + 1)) <= set(sizes), f"sizes {sizes}")
+    par_correspondence(ctx, "split-radix:concurrent-build", ref, drv, jobs=10, timeout=900,
+                       weight=lambda c: len(c) * (8 if " f128 " in c[:20] else 1))
+    ctx.notes["split_radix"] = {"pool_sizes": [1, 2, 3, 8], "log2_sizes": sizes, "cases": len(ref),
+                                "ops": sorted({l.split(" ")[0] for l in ref}), "wall_s": round(__import__("time").time() - t0, 1),
+                                "what": "concurrent build: evaluate_poly/interpolate_poly (split_radix_fft + permute) vs extracted Model/FFTSplit.v; "
+                                        "evaluate_poly_with_offset and RowMatrix::evaluate_polys_over (segments.rs duplicate, row FFT sizes 8/16/32) vs the serial model"}
+
+
 def run(ctx):
     quick = ctx.tier == "quick"
     ctx.rule = ("correspondence: every size 2^1..2^maxlog (maxlog 11 quick / 14 thorough; sizes >= 2^10 take the two-call branch of "
@@ -286,7 +315,8 @@ def run(ctx):
         "E = B in the model (base-field vectors); extension-field vectors are covered by the falsifier (mul_base acts coordinate-wise)",
         "panics: the checked model (every values[i]/twiddles[i]/swap and the debug_asserts as explicit None) is proved equal to the option-valued model on all inputs (C09_entry_points_no_panic); a butterfly that touches i and j is one guard on both indices",
         "usize = 64 bits; lengths below 2^32 (`len as u32`)",
-        "only the serial code path (feature `concurrent` off) — the concurrent variants belong to another property",
+        "concurrent build: split_radix_fft is modelled with its rows sequentialised (C14_disjoint_commute / C14_phase_schedule_independent); "
+        "rayon scheduling, batched scaling and the parallel permute are C14's",
     ]
     # pure integer part: permute_index is TRANSLATED from math/src/fft/mod.rs on every run (coq/Gen/FftIndex.v);
     # Proofs/FFTGen.v proves that the hand model computes the generated term
@@ -299,6 +329,7 @@ def run(ctx):
     profile = "debug" if quick else "release"
     hb = ctx.build_harness("c09", profile)
     exercise(ctx, hb, drv, quick, profile)
+    split_radix(ctx, drv, quick)
     ctx.notes["proof_stages"] = {
         "a": "theorem (every k): fft_rec = DFT by direct evaluation; coset evaluation; interpolation inverse at the spec level",
         "b": "checked every run: extracted faithful model and extracted fft_rec vs the crate (see correspondence)",
@@ -306,6 +337,8 @@ def run(ctx):
              "permute = bit reversal; evaluate_poly/evaluate_poly_with_offset/interpolate_poly(_with_offset)/infer_degree of the faithful model",
         "no_panic": "theorem (every k): no slice access of fft_in_place/permute out of range under the entry-point asserts; checked entry points = "
                     "entry points on all inputs; exact panic domains (_total_iff); the driver also runs the checked model on every case of work size <= 256",
+        "split_radix": "theorem (every n = 4^k, 2*4^k): split_radix_fft of the concurrent build (swap-loop transpositions, strided row FFTs, outer "
+                       "twiddles) = fft_in_place; checked every run: extracted model vs the --features concurrent build under 1/2/3/8 threads",
         "generated": "permute_index is translated by rs2v from the source on every run; theorem: model = generated term for every size <= 2^63; "
                      "the driver evaluates the generated term on every permute_index case",
     }
